@@ -1,11 +1,14 @@
 package t0108
 
+type G2 struct {
+	F0x0x0 *int32
+}
+
 type G1 struct {
-	F1x0 *int64
+	F0x0 G2
+	F0x1 int64
 }
 
 type T struct {
-	F0 *int32
-	F1 G1
-	F2 float32
+	F0 G1
 }
